@@ -20,6 +20,7 @@ EXTENDS Integers, Sequences, FiniteSets, TLC, Json
 CONSTANTS CidStates,     \* subset of {"valid", "rejected", "missing"}
           FileKinds,     \* subset of the kinds below
           MaxFiles,
+          Headers,       \* values of the CID's Header property: subset of 0..2 (rows that are neither validated nor returned)
           Untils,        \* subset of {"absent", "all", "0", "k2", "k9", "huge"}  ("all" = -1; "huge" = 2^63, beyond every file and
                          \* beyond what a C long holds)
           ArgStates,     \* subset of {"ok", "none", "unknownOption", "untilTooSmall", "untilNotNumber", "badLogLevel",
@@ -35,18 +36,24 @@ CONSTANTS CidStates,     \* subset of {"valid", "rejected", "missing"}
 BadAt(kind) == CASE kind = "accepted" -> 0 [] kind = "shares" -> 0 [] kind = "fieldRejected" -> 2 [] kind = "dupRejected" -> 3
                  [] kind = "lateDamage" -> 4 [] OTHER -> 0
 Unreadable(kind) == kind \in {"missing", "directory"}
-Limit(u) == CASE u = "absent" -> -1 [] u = "all" -> -1 [] u = "0" -> 0 [] u = "k2" -> 2 [] u = "k9" -> 9 [] u = "huge" -> 99
-Rejected(kind, u) == BadAt(kind) > 0 /\ (Limit(u) = -1 \/ BadAt(kind) <= Limit(u))
+Limit(u) == CASE u = "absent" -> -1 [] u = "all" -> -1 [] u = "0" -> 0 [] u = "k1" -> 1 [] u = "k2" -> 2 [] u = "k9" -> 9 [] u = "huge" -> 99
+\* With h header rows: a row that offends a field or a check is reported iff it is a data row and its number is at most the limit
+\* (Session.tla, LimitBoundary). A container that is malformed in row r is another matter: the limit N makes the validate-only
+\* API (and the command line) stop after N data rows, i.e. after h + N rows of the container -- the damage is met iff it lies
+\* within them, and with N = 0 nothing is read at all.
+Rejected(kind, u, h) ==
+  IF kind = "lateDamage" THEN Limit(u) = -1 \/ (Limit(u) > 0 /\ BadAt(kind) <= h + Limit(u))
+  ELSE BadAt(kind) > h /\ (Limit(u) = -1 \/ BadAt(kind) <= Limit(u))
 
-VARIABLES args, cid, files, until, deco,   \* the command line
+VARIABLES args, cid, files, until, deco, header,   \* the command line and the CID's Header property
           stage,                     \* "args" | "cid" | "files" | "done"
           idx, allOk, exit
-vars == <<args, cid, files, until, deco, stage, idx, allOk, exit>>
+vars == <<args, cid, files, until, deco, header, stage, idx, allOk, exit>>
 
 FileLists == UNION {[1..n -> FileKinds] : n \in 0..MaxFiles}
-Init == /\ args \in ArgStates /\ cid \in CidStates /\ files \in FileLists /\ until \in Untils /\ deco \in Decorations
+Init == /\ args \in ArgStates /\ cid \in CidStates /\ files \in FileLists /\ until \in Untils /\ deco \in Decorations /\ header \in Headers
         /\ stage = "args" /\ idx = 0 /\ allOk = TRUE /\ exit = -1
-Same == UNCHANGED <<args, cid, files, until, deco>>
+Same == UNCHANGED <<args, cid, files, until, deco, header>>
 \* applications.py:55-134
 ParseArgs == /\ stage = "args" /\ Same /\ UNCHANGED <<idx, allOk>>
              /\ IF args # "ok" THEN stage' = "done" /\ exit' = 2 ELSE stage' = "cid" /\ UNCHANGED exit
@@ -59,7 +66,7 @@ LoadCid == /\ stage = "cid" /\ Same /\ UNCHANGED <<idx, allOk>>
 ValidateFile == /\ stage = "files" /\ idx < Len(files) /\ Same
                 /\ LET kind == files[idx + 1] IN
                    IF Unreadable(kind) THEN stage' = "done" /\ exit' = 3 /\ UNCHANGED <<idx, allOk>>
-                   ELSE /\ allOk' = (allOk /\ ~Rejected(kind, until)) /\ idx' = idx + 1 /\ UNCHANGED <<stage, exit>>
+                   ELSE /\ allOk' = (allOk /\ ~Rejected(kind, until, header)) /\ idx' = idx + 1 /\ UNCHANGED <<stage, exit>>
 \* applications.py:200-202
 Finish == /\ stage = "files" /\ idx = Len(files) /\ Same /\ UNCHANGED <<idx, allOk>>
           /\ stage' = "done" /\ exit' = IF allOk THEN 0 ELSE 1
@@ -72,13 +79,13 @@ ExitOf == IF args # "ok" THEN 2
           ELSE IF cid = "missing" THEN 3
           ELSE IF cid = "rejected" THEN 1
           ELSE IF \E k \in Kinds : Unreadable(k) THEN 3
-          ELSE IF \E k \in Kinds : Rejected(k, until) THEN 1
+          ELSE IF \E k \in Kinds : Rejected(k, until, header) THEN 1
           ELSE 0
 ExitCodeTable == stage = "done" =>
    \* (an unreadable file behind a rejected one: the run ends with 3 in either order)
    exit = ExitOf
-ZeroIffAllAccepted == stage = "done" => ((exit = 0) <=> (args = "ok" /\ cid = "valid" /\ \A k \in Kinds : ~Unreadable(k) /\ ~Rejected(k, until)))
+ZeroIffAllAccepted == stage = "done" => ((exit = 0) <=> (args = "ok" /\ cid = "valid" /\ \A k \in Kinds : ~Unreadable(k) /\ ~Rejected(k, until, header)))
 TypeOK == exit \in {-1, 0, 1, 2, 3}
 Emit == stage = "done" =>
-   PrintT(<<"VEC", ToJson([args |-> args, cid |-> cid, files |-> files, until |-> until, deco |-> deco, exit |-> exit])>>)
+   PrintT(<<"VEC", ToJson([args |-> args, cid |-> cid, files |-> files, until |-> until, deco |-> deco, header |-> header, exit |-> exit])>>)
 =============================================================================
